@@ -1,9 +1,102 @@
 import PyamgV.Driver.Util
-/-! Driver ops for property C14 (line protocol). Op names are prefixed `c14_`. -/
+import PyamgV.Model.KNum
+import PyamgV.Model.C14
+/-! Driver ops for property C14 (line protocol). Op names are prefixed `c14_`.
+Every op runs the definitions of `Model/C14.lean`, i.e. the ones `Props/C14.lean` is about. -/
 namespace PyamgV.Drv.C14
-open PyamgV PyamgV.Drv
+open PyamgV PyamgV.Drv PyamgV.N PyamgV.C14
+
+def mk (n ap aj ax : String) : List Row := rowsOf ⟨nat n, parseNats ap, parseNats aj, parseRats ax⟩
+
+/-- complex rows; `none` when some modulus is irrational (the exact model rejects the request) -/
+def mkC (n ap aj ax : String) : Option (List (RowOf CRat)) :=
+  let ap := parseNats ap
+  let aj := parseNats aj
+  let ax := parseCRats ax
+  if ax.all (fun z => (cnorm? z).isSome) then
+    some <| (List.range (nat n)).map fun i =>
+      (List.range' (rdN ap i) (rdN ap (i+1) - rdN ap i)).map fun jj => (rdN aj jj, ax.getD jj 0)
+  else none
+
+def showRows {α : Type} (sh : Array α → String) (rows : List (RowOf α)) : String :=
+  let (sp, sj, sx) := rowsToOut rows
+  showNats sp ++ ";" ++ showNats sj ++ ";" ++ sh sx
+
+def cadd (a b : CRat) : CRat := a + b
 
 def handle : List String → Option String
+  | ["c14_abs", th, tiny, n, ap, aj, ax] =>
+    some <| showRows showRats (classical absQ (parseRat tiny) (parseRat th) (mk n ap aj ax))
+  | ["c14_min", th, n, ap, aj, ax] =>
+    some <| showRows showRats (classical negQ 0 (parseRat th) (mk n ap aj ax))
+  | ["c14_cabs", th, tiny, n, ap, aj, ax] =>
+    some <| match mkC n ap aj ax with
+      | some rows => showRows showCRats (classical cnorm (parseRat tiny) (parseRat th) rows)
+      | none => "inexact"
+  | ["c14_sym", th, n, ap, aj, ax] =>
+    some <| showRows showRats (symmetric absQ (fun v => v * v) (· + ·) 0 (parseRat th) (mk n ap aj ax))
+  | ["c14_csym", th, n, ap, aj, ax] =>
+    some <| match mkC n ap aj ax with
+      | some rows =>
+        -- the diagonal sums must have an exact modulus as well
+        if (rows.zipIdx).all (fun (r, i) => (cnorm? (r.foldl (fun d cv => if cv.1 = i then cadd d cv.2 else d) 0)).isSome)
+        then showRows showCRats (symmetric cnorm CRat.normSq cadd 0 (parseRat th) rows) else "inexact"
+      | none => "inexact"
+  | ["c14_rowmax", tiny, n, ap, aj, ax] =>
+    some <| showRats ((mk n ap aj ax).map (rowMax absQ (parseRat tiny))).toArray
+  | ["c14_crowmax", tiny, n, ap, aj, ax] =>
+    some <| match mkC n ap aj ax with
+      | some rows => showRats (rows.map (rowMax cnorm (parseRat tiny))).toArray
+      | none => "inexact"
+  | ["c14_pub_classical", norm, th, tiny, n, ap, aj, ax] =>
+    some <| showRows showRats (pubClassicalNorm norm (parseRat tiny) (parseRat th) (mk n ap aj ax))
+  | ["c14_pub_cclassical", th, tiny, n, ap, aj, ax] =>
+    some <| match mkC n ap aj ax with
+      | some rows => showRows showRats (pubClassical cnorm cnorm (parseRat tiny) (parseRat tiny) (parseRat th) rows)
+      | none => "inexact"
+  | ["c14_pub_classical_bsr", norm, th, tiny, drop, n, ap, aj, bs, data] =>
+    some <| showRows showRats (pubClassicalBsr norm (parseRat tiny) (parseRat drop) (parseRat th) (nat n)
+      (parseNats ap) (parseNats aj) (nat bs) (parseRats data).toList)
+  | ["c14_pub_classical_amalg", norm, th, tiny, bs, n, ap, aj, ax] =>
+    some <| showRows showRats (pubClassicalNoBlock norm (parseRat tiny) (parseRat th) (nat bs) (mk n ap aj ax))
+  | ["c14_pub_sym", th, tiny, n, ap, aj, ax] =>
+    some <| showRows showRats (pubSymmetric absQ (fun v => v * v) (· + ·) 0 (parseRat tiny) (parseRat th) (mk n ap aj ax))
+  | ["c14_pub_csym", th, tiny, n, ap, aj, ax] =>
+    some <| match mkC n ap aj ax with
+      | some rows =>
+        if (rows.zipIdx).all (fun (r, i) => (cnorm? (r.foldl (fun d cv => if cv.1 = i then cadd d cv.2 else d) 0)).isSome)
+        then showRows showRats (pubSymmetric cnorm CRat.normSq cadd 0 (parseRat tiny) (parseRat th) rows) else "inexact"
+      | none => "inexact"
+  | ["c14_pub_sym_bsr", th, tiny, n, ap, aj, bs, data] =>
+    some <| match pubSymmetricBsr (parseRat tiny) (parseRat th) (nat n) (parseNats ap) (parseNats aj) (nat bs) (parseRats data).toList with
+      | some rows => showRows showRats rows
+      | none => "inexact"
+  | ["c14_dfilt", big, eps, n, ap, aj, ax] =>
+    some <| showRows showRats (mapRows (distFilterRow (parseRat big) (parseRat eps)) (mk n ap aj ax))
+  | ["c14_adfilt", eps, n, ap, aj, ax] =>
+    some <| showRows showRats (mapRows (absDistFilterRow (parseRat eps)) (mk n ap aj ax))
+  | ["c14_dist_common", big, tiny, eps, n, ap, aj, d] =>
+    some <| showRows showRats (mapRows (distCommonRow (parseRat big) (parseRat tiny) (parseRat eps)) (mk n ap aj d))
+  | ["c14_distance", big, tiny, lo, theta, rel, n, ap, aj, v] =>
+    -- `v`: nodal coordinates, points separated by `;`
+    let V : Array (List Rat) := (parseMat v).map (·.toList)
+    let ap := parseNats ap
+    let aj := parseNats aj
+    let θ : Option Rat := if theta = "inf" then none else some (parseRat theta)
+    let rows := (List.range (nat n)).map fun i =>
+      distRow (parseRat lo) V i ((List.range' (rdN ap i) (rdN ap (i+1) - rdN ap i)).map (rdN aj))
+    some <| if rows.all (·.isSome) then
+      showRows showRats (mapRows (distStrengthRow (parseRat big) (parseRat tiny) θ (rel = "1")) (rows.map (·.getD [])))
+    else "inexact"
+  | ["c14_energy_tail", th, tiny, n, ap, aj, ax] =>
+    some <| showRows showRats (mapRows (energyTailRow (parseRat tiny) (parseRat th)) (mk n ap aj ax))
+  | ["c14_evol_tail", big, tiny, eps, symm, n, ap, aj, ax] =>
+    some <| showRows showRats (evolTail (parseRat big) (parseRat tiny) (parseRat eps) (symm = "1") (mk n ap aj ax))
+  | ["c14_scale", tiny, n, ap, aj, ax] =>
+    -- the last step of every measure: `scale_rows_by_largest_entry` on the observed argument
+    some <| showRows showRats ((mk n ap aj ax).map (scaleRow (parseRat tiny)))
+  | ["c14_minblocks", big, k, data] =>
+    some <| showRats ((chunks (nat k) (parseRats data).toList).map (minBlock (parseRat big))).toArray
   | _ => none
 
 end PyamgV.Drv.C14
